@@ -339,12 +339,28 @@ class Program:
         from .normalise import dissolve_subrecords, inline_generator_helpers, restore_param_names, unproperty_known_methods
 
         self.expanded_generators = inline_generator_helpers({m.name: m.tree for m in self.modules.values()}, kf)
+        from .normalise import inline_bound_method_locals, unwrap_lock_holders
+
+        try:
+            with open(os.path.join(os.path.dirname(os.path.abspath(__file__)), "known_classes.txt")) as fh:
+                kc = {ln.strip() for ln in fh if ln.strip()}
+        except OSError:
+            kc = set()
+        self.unwrapped_lock_holders = unwrap_lock_holders({m.name: m.tree for m in self.modules.values()}, kc)
+        from .normalise import tuple_result_records
+
+        self.tupled_records = tuple_result_records({m.name: m.tree for m in self.modules.values()}, kc)
+
+        self.inlined_method_locals = inline_bound_method_locals({m.name: m.tree for m in self.modules.values()})
 
         dis = dissolve_subrecords({m.name: m.tree for m in self.modules.values()})
         if dis:
             self.__dict__.setdefault("alpha_renamed", {}).update({q: {**self.__dict__.get("alpha_renamed", {}).get(q, {}), **mp} for q, mp in dis.items()})
         self.unpropertied = unproperty_known_methods({m.name: m.tree for m in self.modules.values()}, kf)
         self.restored_params = restore_param_names({m.name: m.tree for m in self.modules.values()})
+        from .normalise import repack_dissolved_params
+
+        self.repacked_params = repack_dissolved_params({m.name: m.tree for m in self.modules.values()})
         from .normalise import inline_predicates
 
         self.inlined_predicates = inline_predicates({m.name: m.tree for m in self.modules.values()}, kf, {m.name for m in self.modules.values() if m.is_pkg})
@@ -406,9 +422,11 @@ class Program:
         for m, ci, table, fi in sites:
             node = fi.node
             decs = getattr(node, "decorator_list", [])
-            if len(decs) != 1:
+            # (`@property` stacked on top of a library decorator stays on the specialised wrapper)
+            outer_decs = [d for d in decs[:-1]]
+            if not decs or any(not (isinstance(d, ast.Name) and d.id == "property") for d in outer_decs):
                 continue
-            dexpr = decs[0]
+            dexpr = decs[-1]
             dname = dexpr.func if isinstance(dexpr, ast.Call) else dexpr
             if not isinstance(dname, ast.Name):
                 continue
@@ -462,7 +480,7 @@ class Program:
             # ---- the wrapper, specialised
             new = copy.deepcopy(inner)
             new.name = node.name
-            new.decorator_list = []
+            new.decorator_list = list(outer_decs)
             wrapped_name = f"{node.name}__wrapped__"
             ia = new.args
             is_method = ci is not None and not fi.is_staticmethod
